@@ -245,6 +245,32 @@ func c14Valid(c *vkit.Ctx, r *rand.Rand, i int, cfgs []jsonCfg) {
 		return
 	}
 	c.Count("canonical_checks", 1)
+	// update: the slot is rewritten to another document; the rewritten text must be that
+	// document's canonical text (what a fresh recording stores) and decode to it
+	if r.IntN(2) == 0 {
+		d2 := vkit.JSONDoc(r, 3, vkit.Classes{})
+		q := d2.Render(r, sortOn)
+		tr := true
+		snaps.VerifResetProcessState()
+		outU, sigU, tU, _ := e.call(api, jc, "docs", "TestJ", q, &tr)
+		snaps.VerifResetProcessState()
+		_, _, tFresh, _ := e.call(api, jc, "docs3", "TestL", q, nil)
+		in["updated_to"] = vkit.Clip(q, 1000)
+		if outU == vkit.Updated || (outU == vkit.Passed && tFresh == t1) {
+			if tU != tFresh {
+				c.Violate("updated-text-not-canonical", "", fmt.Sprintf("%s options=%s: after update the slot holds %s, a fresh recording of the same document stores %s", api, jc.Name, vkit.Q(tU), vkit.Q(tFresh)), in)
+				return
+			}
+			if g2, err := vkit.ParseJSON(tU); err != nil || d2.Equal(g2, !sortOn) != "" {
+				c.Violate("updated-text-other-value", "", fmt.Sprintf("%s options=%s: updated text %s does not decode to the new document (%v)", api, jc.Name, vkit.Q(tU), err), in)
+				return
+			}
+			c.Count("update_checks", 1)
+		} else {
+			c.Violate("update-outcome", "", fmt.Sprintf("%s options=%s: update to another document gave %s: %s", api, jc.Name, outU, firstErr(sigU)), in)
+			return
+		}
+	}
 	c.Count("forms:"+f1+"/"+f2, 1)
 	c.Count("options:"+jc.Name, 1)
 	for k := range cl {
